@@ -24,6 +24,210 @@ func runC04(c *Check, tier string) {
 	ruleR04d(c)
 	ruleR04e(c)
 	ruleLockPairing(c, "R04f")
+	ruleSemaphorePairing(c, "R04g")
+	ruleAdjacencyNotAliased(c, "R04h")
+}
+
+// ruleSemaphorePairing (shared with C18): every acquired slot of a counting semaphore — a successful
+// (*semaphore.Weighted).Acquire, or a struct{} sent into a channel held in a struct field — is given
+// back on every path to the function's return: by the matching Release / receive, or by a deferred
+// one registered before any return. A leaked slot makes later acquirers wait forever.
+func ruleSemaphorePairing(c *Check, rule string) {
+	c.Rule(rule, "every semaphore slot acquired in a function (semaphore.Weighted.Acquire == nil, or a struct{} send into a buffered channel field) is released on every path to its return (Release / receive on the same semaphore, directly or in a registered defer)", 1)
+	isEmptyStruct := func(t types.Type) bool {
+		st, ok := t.Underlying().(*types.Struct)
+		return ok && st.NumFields() == 0
+	}
+	chanSemKey := func(ch ssa.Value) (string, bool) {
+		ct, ok := ch.Type().Underlying().(*types.Chan)
+		if !ok || !isEmptyStruct(ct.Elem()) {
+			return "", false
+		}
+		ld, ok := ch.(*ssa.UnOp)
+		if !ok {
+			return "", false
+		}
+		if _, isField := ld.X.(*ssa.FieldAddr); !isField {
+			return "", false
+		}
+		return engine.ExprKey(ch), true
+	}
+	for _, fn := range c.P.Funcs {
+		type acq struct {
+			at     ssa.Instruction
+			key    string
+			held   func(b *ssa.BasicBlock, i int) bool // edges on which the slot is NOT held
+			isChan bool
+		}
+		var acqs []acq
+		for _, b := range fn.Blocks {
+			for _, in := range b.Instrs {
+				switch x := in.(type) {
+				case *ssa.Call:
+					if engine.CalleeName(x) == "(*golang.org/x/sync/semaphore.Weighted).Acquire" {
+						call := x
+						acqs = append(acqs, acq{at: x, key: engine.ExprKey(x.Call.Args[0]), held: engine.CutEdgesWhere(func(a engine.Atom) bool {
+							return a.Op == "nonnil" && engine.OriginsAllFromCall(a.V, map[ssa.CallInstruction]int{call: 0}, false)
+						})})
+					}
+				case *ssa.Send:
+					if k, ok := chanSemKey(x.Chan); ok {
+						acqs = append(acqs, acq{at: x, key: k, isChan: true})
+					}
+				case *ssa.Select:
+					for si, st := range x.States {
+						if st.Dir != types.SendOnly {
+							continue
+						}
+						k, ok := chanSemKey(st.Chan)
+						if !ok {
+							continue
+						}
+						sel, idx := x, int64(si)
+						acqs = append(acqs, acq{at: x, key: k, isChan: true, held: engine.CutEdgesWhere(func(a engine.Atom) bool {
+							// another case of the select fired: no slot taken
+							ex, ok := a.V.(*ssa.Extract)
+							if !ok || ex.Tuple != ssa.Value(sel) || ex.Index != 0 {
+								return false
+							}
+							k, ok := a.Other.(*ssa.Const)
+							if !ok {
+								return false
+							}
+							return (a.Op == "eq" && k.Int64() != idx) || (a.Op == "ne" && k.Int64() == idx)
+						})})
+					}
+				}
+			}
+		}
+		for _, a := range acqs {
+			key := a.key
+			releasesHere := func(f *ssa.Function) bool {
+				for _, b := range f.Blocks {
+					for _, in := range b.Instrs {
+						switch x := in.(type) {
+						case *ssa.UnOp:
+							if a.isChan && x.Op == token.ARROW && engine.ExprKey(x.X) == key {
+								return true
+							}
+						case ssa.CallInstruction:
+							if !a.isChan && engine.CalleeName(x) == "(*golang.org/x/sync/semaphore.Weighted).Release" && engine.ExprKey(x.Common().Args[0]) == key {
+								return true
+							}
+						}
+					}
+				}
+				return false
+			}
+			isRelease := func(in ssa.Instruction) bool {
+				switch x := in.(type) {
+				case *ssa.UnOp:
+					return a.isChan && x.Op == token.ARROW && engine.ExprKey(x.X) == key
+				case *ssa.Defer:
+					if !a.isChan && engine.CalleeName(x) == "(*golang.org/x/sync/semaphore.Weighted).Release" && engine.ExprKey(x.Call.Args[0]) == key {
+						return true
+					}
+					if mc, ok := x.Call.Value.(*ssa.MakeClosure); ok {
+						if lit, ok := mc.Fn.(*ssa.Function); ok && releasesHere(lit) {
+							return true
+						}
+					}
+				case *ssa.Call:
+					return !a.isChan && engine.CalleeName(x) == "(*golang.org/x/sync/semaphore.Weighted).Release" && engine.ExprKey(x.Call.Args[0]) == key
+				}
+				return false
+			}
+			isRet := func(in ssa.Instruction) bool { _, r := in.(*ssa.Return); return r && in.Parent() == fn }
+			leak, at := engine.PathExists(fn, a.at, isRet, engine.PathQuery{CutInstr: isRelease, CutEdge: a.held, Shallow: true})
+			pos := c.P.InstrPos(a.at)
+			why := ""
+			if at != nil {
+				why = "the function can return at " + c.P.InstrPos(at) + " with the slot still taken"
+			}
+			// a worker-pool style hand-off (the slot is released by another goroutine) would need its own argument
+			c.Require(!leak, rule, "slot-released/"+c.P.FuncName(fn)+"/"+strings.TrimPrefix(key, "var:"), "the acquired slot is released (or its release deferred) on every path to return", "a semaphore slot can leak: "+why+"; after as many such exits as there are slots every later acquirer waits forever (the build hangs)", pos)
+		}
+	}
+}
+
+// returnsSharedAdjacency: the dag function hands out one of the graph's own edge lists (not a copy).
+func returnsSharedAdjacency(f *ssa.Function) bool {
+	if !returnsNodeSlice(f) {
+		return false
+	}
+	for _, r := range engine.Returns(f) {
+		if len(r.Results) == 0 {
+			continue
+		}
+		for _, o := range engine.Origins(r.Results[0]) {
+			if lk, ok := o.(*ssa.Lookup); ok && (isLoadOfField(lk.X, fInEdges) || isLoadOfField(lk.X, fOutEdges)) {
+				return true
+			}
+		}
+	}
+	return false
+}
+
+// ruleAdjacencyNotAliased (shared with C03): the dependency lists the graph hands out are its own storage;
+// outside internal/dag nothing appends to them or stores into their elements (a worklist seeded with
+// `stack := g.GetDependencies(n)` and then popped/pushed rewrites the graph's edges).
+func ruleAdjacencyNotAliased(c *Check, rule string) {
+	c.Rule(rule, "outside internal/dag no append extends, and no element store writes through, a slice that aliases one of the graph's adjacency lists (the result of GetDependencies/GetDependants or an inEdges/outEdges lookup): copies (`append([]T{}, adj...)`, slices.Clone) are fine", 1)
+	n := 0
+	for _, fn := range c.P.Funcs {
+		if engine.InPackage(fn, "dag") || engine.InPackage(fn, "proto/gen") {
+			continue
+		}
+		var adj []ssa.Value
+		for _, b := range fn.Blocks {
+			for _, in := range b.Instrs {
+				call, ok := in.(*ssa.Call)
+				if !ok {
+					continue
+				}
+				for _, f := range c.G.CalleesOf(call) {
+					if engine.InPackage(f, "dag") && returnsSharedAdjacency(f) {
+						adj = append(adj, call)
+					}
+				}
+			}
+		}
+		if len(adj) == 0 {
+			continue
+		}
+		n++
+		aliases := func(v ssa.Value) bool {
+			roots := sliceRoots(v)
+			for _, a := range adj {
+				if roots[a] {
+					return true
+				}
+			}
+			return false
+		}
+		bad := ""
+		var pos string
+		for _, b := range fn.Blocks {
+			for _, in := range b.Instrs {
+				switch x := in.(type) {
+				case *ssa.Call:
+					if bi, ok := x.Call.Value.(*ssa.Builtin); ok && bi.Name() == "append" && len(x.Call.Args) > 0 && aliases(x.Call.Args[0]) {
+						bad = "append extends a slice that shares its backing array with the graph's adjacency list"
+						pos = c.P.InstrPos(x)
+					}
+				case *ssa.Store:
+					if ia, ok := x.Addr.(*ssa.IndexAddr); ok && aliases(ia.X) {
+						bad = "an element of the graph's adjacency list is overwritten"
+						pos = c.P.InstrPos(x)
+					}
+				}
+			}
+		}
+		c.Require(bad == "", rule, "adjacency-not-modified/"+c.P.FuncName(fn), "adjacency lists obtained from the graph are only read (or copied first)", bad+": the edges of the graph itself change under the walker/validators (a dependency silently replaced or lost)", pos)
+	}
+	if n == 0 {
+		c.Unknown(rule, "adjacency-not-modified", "no function outside internal/dag obtains an adjacency list: the rule lost its subject", "-")
+	}
 }
 
 // ---------------------------------------------------------------------------
